@@ -70,7 +70,7 @@ type explorer struct {
 }
 
 func newExplorer(c *cache, canon func(*state) string) *explorer {
-	return &explorer{cache: c, canon: canon, seen: map[string]bool{}, frontier: map[int][][]int{}, chunk: 8}
+	return &explorer{cache: c, canon: canon, seen: map[string]bool{}, frontier: map[int][][]int{}, chunk: 16}
 }
 
 func (e *explorer) get(h []int) *node {
